@@ -222,6 +222,7 @@ package op
 //@   ensures iat: err == nil ==> result0.GetIssuedAt() != ZEROTIME && result0.GetIssuedAt() <= wallclock + v.Offset + 500000000
 //@                            && (v.MaxAgeIAT != 0 ==> result0.GetIssuedAt() >= old(wallclock) - v.MaxAgeIAT - 500000000)
 //@   ensures subject-check: err == nil ==> callres("dyn:v.CheckSubject", 0) == nil
+//@   defines authenticated: err == nil ==> authenticated(result0.Issuer)
 //@   ensures signature-configured-set: err == nil && v.keySet != nil ==> sigChecked(assertion, jwtPayload(assertion), v.keySet, nil)
 //@   ensures signature-issuer-keys: err == nil && v.keySet == nil ==> clientKeysChecked(assertion, jwtPayload(assertion), v.Storage, result0.Issuer)
 
@@ -488,6 +489,13 @@ package op
 //@   ensures responded: Resp_written[w]
 //@   ensures refused: callres("op.ParseTokenIntrospectionRequest", 2) != nil ==> Resp_status[w] == 401
 //@   ensures answered-only-authenticated: Resp_status[w] == 200 ==> callres("op.ParseTokenIntrospectionRequest", 2) == nil
+//@   ensures asked-for-the-caller: called("op.OPStorage.SetIntrospectionFromToken") ==> callres("op.getTokenIDAndSubject", 2)
+//@        && callarg("op.OPStorage.SetIntrospectionFromToken", 2) == callres("op.getTokenIDAndSubject", 0)
+//@        && callarg("op.OPStorage.SetIntrospectionFromToken", 3) == callres("op.getTokenIDAndSubject", 1)
+//@        && callarg("op.OPStorage.SetIntrospectionFromToken", 4) == callres("op.ParseTokenIntrospectionRequest", 1)
+//@   ensures inactive-without-storage: Resp_status[w] == 200 && !called("op.OPStorage.SetIntrospectionFromToken") && as(Resp_body[w], "*oidc.IntrospectionResponse") != nil
+//@        ==> !as(Resp_body[w], "*oidc.IntrospectionResponse").Active && as(Resp_body[w], "*oidc.IntrospectionResponse").Subject == ""
+//@         && as(Resp_body[w], "*oidc.IntrospectionResponse").ClientID == "" && as(Resp_body[w], "*oidc.IntrospectionResponse").Username == ""
 //@   ensures active-only-after-storage-ok: Resp_status[w] == 200 && callres("op.ParseTokenIntrospectionRequest", 2) == nil
 //@        && as(Resp_body[w], "*oidc.IntrospectionResponse") != nil && as(Resp_body[w], "*oidc.IntrospectionResponse").Active
 //@        ==> callres("op.OPStorage.SetIntrospectionFromToken", 0) == nil
@@ -821,3 +829,49 @@ package op
 //@ func op.SigAlgorithms
 //@   requires valid(storage)
 //@   modifies os(storage)
+
+// ---- C08: only live tokens are honoured ----
+
+// An access token yields (token id, subject) only if it decrypts under the provider key to exactly
+// "id:subject", or verifies as a JWT access token (issuer, signature, unexpired: op.VerifyAccessToken).
+//@ func op.getTokenIDAndSubject
+//@   requires valid(userinfoProvider)
+//@   ensures fail-empty: !result2 ==> result0 == "" && result1 == ""
+//@   ensures opaque: result2 && callres("op.Crypto.Decrypt", 1) == nil ==> splitCount(callres("op.Crypto.Decrypt", 0), ":") == 2
+//@        && result0 == splitPart(callres("op.Crypto.Decrypt", 0), ":", 0) && result1 == splitPart(callres("op.Crypto.Decrypt", 0), ":", 1)
+//@        && callarg("op.Crypto.Decrypt", 0) == accessToken
+//@   ensures jwt: result2 && callres("op.Crypto.Decrypt", 1) != nil ==> called("op.VerifyAccessToken") && callres("op.VerifyAccessToken", 1) == nil
+//@        && callarg("op.VerifyAccessToken", 1) == accessToken
+//@        && result0 == as(callres("op.VerifyAccessToken", 0), "*oidc.AccessTokenClaims").JWTID
+//@        && result1 == as(callres("op.VerifyAccessToken", 0), "*oidc.AccessTokenClaims").Subject
+
+// UserInfo returns claims only for a token that passed getTokenIDAndSubject and that the storage
+// (the liveness oracle) accepted for exactly that id and subject.
+//@ func op.Userinfo
+//@   requires !Resp_written[w] && valid(r) && valid(userinfoProvider) && valid(w)
+//@   modifies Resp_written[w], Resp_status[w], Resp_location[w], Resp_body[w]
+//@   unframed
+//@   ensures responded: Resp_written[w]
+//@   ensures claims-only-live: Resp_status[w] == 200 ==> called("op.getTokenIDAndSubject") && callres("op.getTokenIDAndSubject", 2)
+//@        && called("op.OPStorage.SetUserinfoFromToken") && callres("op.OPStorage.SetUserinfoFromToken", 0) == nil
+//@        && callarg("op.OPStorage.SetUserinfoFromToken", 2) == callres("op.getTokenIDAndSubject", 0)
+//@        && callarg("op.OPStorage.SetUserinfoFromToken", 3) == callres("op.getTokenIDAndSubject", 1)
+//@   ensures invalid-token-401: called("op.getTokenIDAndSubject") && !callres("op.getTokenIDAndSubject", 2) ==> Resp_status[w] == 401
+//@   ensures storage-refusal-403: called("op.OPStorage.SetUserinfoFromToken") && callres("op.OPStorage.SetUserinfoFromToken", 0) != nil ==> Resp_status[w] == 403
+
+// Revocation: the storage decides, and is asked with the authenticated caller's client id.
+//@ func op.ParseTokenRevocationRequest
+//@   requires valid(r) && valid(revoker)
+//@   ensures fail-closed: err != nil ==> token == "" && clientID == ""
+//@   ensures caller-identified: err == nil ==> authenticated(clientID) || (called("op.OPStorage.GetClientByClientID") && callres("op.OPStorage.GetClientByClientID", 1) == nil
+//@        && callres("op.OPStorage.GetClientByClientID", 0).AuthMethod() == oidc.AuthMethodNone && callres("op.OPStorage.GetClientByClientID", 0).GetID() == clientID)
+//@ func op.Revoke
+//@   requires !Resp_written[w] && valid(r) && valid(revoker) && valid(w)
+//@   modifies Resp_written[w], Resp_status[w], Resp_location[w], Resp_body[w]
+//@   unframed
+//@   ensures responded: Resp_written[w]
+//@   ensures ok-only-after-storage: Resp_status[w] == 200 ==> callres("op.ParseTokenRevocationRequest", 3) == nil
+//@        && called("op.AuthStorage.RevokeToken") && callres("op.AuthStorage.RevokeToken", 0) == nil
+//@        && callarg("op.AuthStorage.RevokeToken", 3) == callres("op.ParseTokenRevocationRequest", 2)
+//@   ensures garbage-token-still-ok: called("op.AuthStorage.RevokeToken") && callres("op.AuthStorage.RevokeToken", 0) == nil ==> Resp_status[w] == 200
+//@   ensures refresh-lookup-by-caller: called("op.AuthStorage.GetRefreshTokenInfo") ==> callarg("op.AuthStorage.GetRefreshTokenInfo", 1) == callres("op.ParseTokenRevocationRequest", 2)
